@@ -212,3 +212,18 @@ func (mAddr *ManagedAddress) VerifScript() []byte { return mAddr.scriptHash }
 //@   modifies *
 //@   only computeChecksum
 //@   at "firstChecksumByte := hash[0]" assert[C13] strOf(hash) == ghosts("sha256", strOf(data))
+
+// ---- C13 (fourth phase): the legal sizes. An entropy is accepted exactly when it has 128, 160, 192, 224 or 256 bits
+// ("128-256 bits, multiples of 32"); a sentence gets past the length test exactly when it has 12, 15, 18, 21 or 24
+// words ("a legal length"), and the words handed on are the fields of the sentence, in order.
+//@ func validateEntropyBitSize
+//@   props C13 C19
+//@   pure
+//@   ensures[C13] (result == nil) == (bitSize == 128 || bitSize == 160 || bitSize == 192 || bitSize == 224 || bitSize == 256)
+//@   ensures result == nil || result == ErrEntropyLengthInvalid
+
+//@ func splitMnemonicWords
+//@   props C13 C19
+//@   ensures[C13] result1 == (ghost("nfields", mnemonic) == 12 || ghost("nfields", mnemonic) == 15 || ghost("nfields", mnemonic) == 18 || ghost("nfields", mnemonic) == 21 || ghost("nfields", mnemonic) == 24)
+//@   ensures[C13] result1 ==> len(result0) == ghost("nfields", mnemonic) && (forall qi_ int :: 0 <= qi_ && qi_ < len(result0) ==> result0[qi_] == ghosts("field", mnemonic, qi_))
+//@   ensures !result1 ==> len(result0) == 0
